@@ -7,9 +7,15 @@
 (* them), qualifiers ascending, timestamps descending.  lab is a sequence  *)
 (* of labels (byte strings).                                               *)
 (*                                                                         *)
-(* Eval(flt, cells, key) is a SET of outcomes [err, cells]; it has more    *)
-(* than one member only through row_sample (each row wholly or not).       *)
+(* Eval(flt, cells, key) is a SET of outcomes [err, cells, amb]; it has    *)
+(* more than one member only through row_sample (each row wholly or not).  *)
 (* err = TRUE: evaluation reached an invalid filter => InvalidArgument.    *)
+(* amb = TRUE: the outcome is not determined by the documented semantics:  *)
+(* an order-dependent filter (a cell limit or offset) dropped cells of a   *)
+(* row in which an interleave had produced cells that differ only in label *)
+(* or value under one (family, qualifier, timestamp) -- the order among    *)
+(* those is unspecified (the emulator uses an unstable sort), so which of  *)
+(* them survives is too.  Consumers accept any result for such a row.      *)
 (*                                                                         *)
 (* Filter records (field k):                                               *)
 (*  pass b | block b | keyre re | famre re | qualre re | valre re          *)
@@ -20,7 +26,13 @@
 (***************************************************************************)
 EXTENDS Bytes, Num64, Regex, Integers, Sequences, FiniteSets
 
-R(e, cs) == [err |-> e, cells |-> cs]
+R(e, cs) == [err |-> e, cells |-> cs, amb |-> FALSE]
+R3(e, cs, a) == [err |-> e, cells |-> cs, amb |-> a]
+\* two cells of one column with the same timestamp that are not the same cell
+TieAmb(cells) == \E i \in 1..Len(cells) : \E j \in (i+1)..Len(cells) :
+                    cells[i].f = cells[j].f /\ cells[i].q = cells[j].q /\ cells[i].ts = cells[j].ts /\ cells[i] # cells[j]
+\* the result of an order-dependent selection
+Sel(cells, kept) == R3(FALSE, kept, kept # cells /\ TieAmb(cells))
 
 InLo(kind, bound, x) == CASE kind = "none" -> TRUE [] kind = "open" -> BLess(bound, x) [] OTHER -> BLe(bound, x)
 InHi(kind, bound, x) == CASE kind = "none" -> TRUE [] kind = "open" -> BLess(x, bound) [] OTHER -> BLe(x, bound)
@@ -73,7 +85,7 @@ SameUpToTies(a, b) ==
   /\ \A i \in 1..Len(a) :
         Cardinality({j \in 1..Len(a) : a[j] = a[i]}) = Cardinality({j \in 1..Len(b) : b[j] = a[i]})
 
-RECURSIVE Eval(_, _, _), ChainEval(_, _, _, _), InterEval(_, _, _, _, _)
+RECURSIVE Eval(_, _, _), ChainEval(_, _, _, _, _), InterEval(_, _, _, _, _, _)
 Eval(flt, cells, key) ==
   CASE flt.k = "pass"  -> IF flt.b THEN {R(FALSE, cells)} ELSE {R(TRUE, <<>>)}
     [] flt.k = "block" -> IF flt.b THEN {R(FALSE, <<>>)} ELSE {R(TRUE, <<>>)}
@@ -94,35 +106,37 @@ Eval(flt, cells, key) ==
          ELSE {R(FALSE, SelectSeq(cells, LAMBDA c : GE64(c.ts, flt.t0) /\ (IsZero64(flt.t1) \/ LT64(c.ts, flt.t1))))}
     [] flt.k = "rowlimit" ->
          IF flt.n < 0 THEN {R(TRUE, <<>>)}
-         ELSE {R(FALSE, SubSeq(cells, 1, IF flt.n < Len(cells) THEN flt.n ELSE Len(cells)))}
+         ELSE {Sel(cells, SubSeq(cells, 1, IF flt.n < Len(cells) THEN flt.n ELSE Len(cells)))}
     [] flt.k = "rowoffset" ->
          IF flt.n < 0 THEN {R(TRUE, <<>>)}
-         ELSE {R(FALSE, SubSeq(cells, (IF flt.n < Len(cells) THEN flt.n ELSE Len(cells)) + 1, Len(cells)))}
+         ELSE {Sel(cells, SubSeq(cells, (IF flt.n < Len(cells) THEN flt.n ELSE Len(cells)) + 1, Len(cells)))}
     [] flt.k = "collimit" ->
-         IF flt.n < 0 THEN {R(TRUE, <<>>)} ELSE {R(FALSE, ColLimit(cells, flt.n, 1, 0))}
+         IF flt.n < 0 THEN {R(TRUE, <<>>)} ELSE {Sel(cells, ColLimit(cells, flt.n, 1, 0))}
     [] flt.k = "strip" -> {R(FALSE, [i \in 1..Len(cells) |-> [cells[i] EXCEPT !.v = <<>>, !.lab = <<>>]])}
     [] flt.k = "label" -> {R(FALSE, [i \in 1..Len(cells) |-> [cells[i] EXCEPT !.lab = <<flt.l>>]])}
     [] flt.k = "sample" -> {R(FALSE, cells), R(FALSE, <<>>)}
     [] flt.k = "badsample" -> {R(TRUE, <<>>)}
-    [] flt.k = "chain" -> IF Len(flt.fs) < 2 THEN {R(TRUE, <<>>)} ELSE ChainEval(flt.fs, 1, cells, key)
-    [] flt.k = "inter" -> IF Len(flt.fs) < 2 THEN {R(TRUE, <<>>)} ELSE InterEval(flt.fs, 1, cells, key, <<>>)
+    [] flt.k = "chain" -> IF Len(flt.fs) < 2 THEN {R(TRUE, <<>>)} ELSE ChainEval(flt.fs, 1, cells, key, FALSE)
+    [] flt.k = "inter" -> IF Len(flt.fs) < 2 THEN {R(TRUE, <<>>)} ELSE InterEval(flt.fs, 1, cells, key, <<>>, FALSE)
     [] flt.k = "cond" ->
          UNION { IF p.err THEN {R(TRUE, <<>>)}
+                 ELSE IF p.amb THEN {R3(FALSE, <<>>, TRUE)}      \* which branch is taken is not determined
                  ELSE LET br == IF p.cells # <<>> THEN flt.tb ELSE flt.fb IN
                       IF br.k = "nil" THEN {R(FALSE, <<>>)} ELSE Eval(br, cells, key)
                  : p \in Eval(flt.p, cells, key) }
     [] OTHER -> {R(TRUE, <<>>)}
 
-ChainEval(fs, n, cells, key) ==
-  IF n > Len(fs) THEN {R(FALSE, cells)}
+ChainEval(fs, n, cells, key, amb) ==
+  IF n > Len(fs) THEN {R3(FALSE, cells, amb)}
   ELSE UNION { IF o.err THEN {R(TRUE, <<>>)}
-               ELSE IF o.cells = <<>> THEN {R(FALSE, <<>>)}          \* stops as soon as nothing is left
-               ELSE ChainEval(fs, n + 1, o.cells, key)
+               ELSE IF o.amb THEN {R3(FALSE, <<>>, TRUE)}            \* undetermined from here on
+               ELSE IF o.cells = <<>> THEN {R3(FALSE, <<>>, amb)}    \* stops as soon as nothing is left
+               ELSE ChainEval(fs, n + 1, o.cells, key, amb)
                : o \in Eval(fs[n], cells, key) }
 
-InterEval(fs, n, cells, key, acc) ==
-  IF n > Len(fs) THEN {R(FALSE, Regroup(acc, cells))}
-  ELSE UNION { IF o.err THEN {R(TRUE, <<>>)} ELSE InterEval(fs, n + 1, cells, key, acc \o o.cells)
+InterEval(fs, n, cells, key, acc, amb) ==
+  IF n > Len(fs) THEN {R3(FALSE, Regroup(acc, cells), amb)}
+  ELSE UNION { IF o.err THEN {R(TRUE, <<>>)} ELSE InterEval(fs, n + 1, cells, key, acc \o o.cells, amb \/ o.amb)
                : o \in Eval(fs[n], cells, key) }
 
 \* does the tree contain an invalid filter anywhere (evaluated or not)?
